@@ -53,3 +53,25 @@ func TestVerifDemo_C28_QueuedState(t *testing.T) {
 	}
 	a.sleepMgr.Stop()
 }
+
+// A UDP_CLOSE / ICMP_CLOSE that arrives from a peer other than the next hop of the agent's own
+// association, with the same per-connection stream id, tears the agent's own tunnel down.
+func TestVerifDemo_C16_CloseFromOtherPeer(t *testing.T) {
+	var id, next, other identity.AgentID
+	id[0], next[0], other[0] = 9, 1, 2
+	a := &Agent{id: id, logger: logging.NopLogger(), tcpRelay: newRelayTable(), udpRelay: newRelayTable(), icmpRelay: newRelayTable()}
+	dest := &udpDestAssociation{StreamID: 1, NextHop: next, OriginKey: "o", PendingOpen: make(chan struct{})}
+	ing := &udpIngressAssociation{destAssocs: map[string]*udpDestAssociation{"o": dest}}
+	a.udpIngressByLocalStream = map[uint64]*udpDestLookup{1: {Ingress: ing, Dest: dest}}
+	a.handleUDPClose(other, &protocol.Frame{Type: protocol.FrameUDPClose, StreamID: 1})
+	if a.udpIngressByLocalStream[1] == nil || ing.destAssocs["o"] == nil {
+		t.Log("VERIF-DEMO-REPRODUCED: UDP_CLOSE from another peer removed the agent's own UDP association")
+	}
+	sess := &icmpIngressAssociation{StreamID: 1, NextHop: next, PendingOpen: make(chan struct{})}
+	a.icmpIngressByStream = map[uint64]*icmpIngressAssociation{1: sess}
+	a.icmpWSSessionByStream = map[uint64]*icmpWebSocketSession{}
+	a.handleICMPClose(other, &protocol.Frame{Type: protocol.FrameICMPClose, StreamID: 1})
+	if a.icmpIngressByStream[1] == nil {
+		t.Log("VERIF-DEMO-REPRODUCED: ICMP_CLOSE from another peer removed the agent's own ICMP session")
+	}
+}
